@@ -6,13 +6,21 @@ regenerate():  lean/KawinV/Gen/C20Tables.lean is rebuilt from $VERIF_REPO on eve
                value lands under which key, and whether the line is skipped for a None slot) and of fromDict (recording
                dict: which key is read into which slot, KeyError or default for a missing key); for every getter of an
                untrained BinarySurrogate / MulticomponentSurrogate the thermodynamics method it falls through to
-               (recording mock thermodynamics).
+               (recording mock thermodynamics); and the FORWARDING rows binaryForwarding / multiForwarding: per getter, how the
+               untrained branch hands each named parameter and each further keyword argument of the thermodynamics method on
+               ("pos" | "kw" | "kw:<other>" | "drop", read off the call the mock received for non-default values of every
+               argument), whether it takes *args/**kwargs, and the parameter names of the thermodynamics method.
 corr():        model <-> implementation: the Lean model (KawinV.SaveLoad with the generated tables) is run on the
                states of REAL runs (file keys, load outcome, every slot after load) and on ndarray -> JSON -> ndarray.
                direct oracle: save -> load into a freshly constructed model of the same configuration -> every slot
                bit-for-bit (Al-Zr precipitation runs saved mid-run and after completion, PSD recording on/off; diffusion
                models with recording on / off / switched off / removed; StrengthModel; the dedicated recorded-PSD file);
-               untrained surrogate getters against the thermodynamics call of the same quantity; trained surrogates at
+               untrained surrogate getters against the thermodynamics call of the same quantity; untrained pass-through with
+               ALL arguments: (a) every getter of both classes on a recording mock in every call form (default / all keywords /
+               each keyword alone / positional / positional extras) + random calls, the argument the thermodynamics method
+               received under each name compared with what the caller supplied, and the Lean model of the forwarding line
+               (KawinV.Forward, rows of the generated table) run on the same calls; (b) untrained and partially trained
+               MulticomponentSurrogate of Al-Mg-Si (5 precipitate phases), every phase, exact equality; trained surrogates at
                their training points; surrogates rebuilt from their JSON file."""
 import contextlib, inspect, io, json, math, os, re, shutil, tempfile, traceback, warnings
 import numpy as np
@@ -21,7 +29,7 @@ from vlib import Result, enc_list, f2b, b2f, Toks, close
 
 PROP = 'C20'
 META = {
-    'level_text': 'Lean 4 theorems about an executable model of the save/load layers (npz archive = identity on float arrays, load error on a saved None; toDict/fromDict = tables of (key, slot, optional) lines; JSON = ndarray.tolist / np.array) whose tables are EXTRACTED from the running code on every run: key coverage (every key read is written into the same slot; the 16 histories, per-phase PBM data / PSD / bounds / sizes / aspect-ratio table, diffusion t, x and recorded arrays are written and read) by `decide` over the generated tables; round trip load(save s) = ok s\' with every observable equal for every state, any number of distinct phase names and any array contents (keys of different phases cannot collide: prefix-freeness of the generated key prefixes); a diffusion file loads whatever the recording options (after the repair in known_findings.txt; the unrepaired table is proved to fail); the recorded size-distribution history is proved NOT to survive (finding); every untrained surrogate getter falls through to the thermodynamics method of the same name, unchanged arguments and result (`decide` over the recorded table); fromJson(toJson d) = d for well-formed arrays of any rank.',
+    'level_text': 'Lean 4 theorems about an executable model of the save/load layers (npz archive = identity on float arrays, load error on a saved None; toDict/fromDict = tables of (key, slot, optional) lines; JSON = ndarray.tolist / np.array) whose tables are EXTRACTED from the running code on every run: key coverage (every key read is written into the same slot; the 16 histories, per-phase PBM data / PSD / bounds / sizes / aspect-ratio table, diffusion t, x and recorded arrays are written and read) by `decide` over the generated tables; round trip load(save s) = ok s\' with every observable equal for every state, any number of distinct phase names and any array contents (keys of different phases cannot collide: prefix-freeness of the generated key prefixes); a diffusion file loads whatever the recording options (after the repair in known_findings.txt; the unrepaired table is proved to fail); the recorded size-distribution history is proved NOT to survive (finding); every untrained surrogate getter falls through to the thermodynamics method of the same name, unchanged arguments and result (`decide` over the recorded table) and hands EVERY argument of the caller on: Python call binding of the forwarding line is modelled (KawinV.Forward: getter signature with *args/**kwargs -> forwarded call -> thermodynamics signature), `untrained_forwards_all_arguments` decides on the regenerated rows that nothing is dropped or renamed and that the canonical calls (all keywords, each keyword alone, all positional, mixed) deliver every argument under its own name, `forward_faithful_partial` / `untrained_getters_hand_on_every_keyword` prove it for EVERY call with distinct keywords whose positional arguments are for the getter own parameters (a dropped phase and the pre-e476a9c keyword-then-*args line are proved to fail on concrete calls); fromJson(toJson d) = d for well-formed arrays of any rank.',
     'level_note': 'Trusted: Lean kernel + Mathlib (axioms propext/Classical.choice/Quot.sound). The tables are what the recording run observed on marker data for a 2-phase and a 3-phase model (data-dependent branches of toDict/fromDict other than "slot is None"/"key missing" would not be seen; none exist today); NumPy savez/load, zip compression, dtype handling, json printing/parsing of numbers (repr round trip) are trusted and only compared on this run\'s cases. MONITORED (oracle only, SciPy RBFInterpolator): a trained surrogate reproduces its training data at the training points; a surrogate rebuilt from its file gives the same predictions. Continuing a run after a reload is outside the statement and recorded as a finding. This kawin version has no recording interval, so "recording options" are on / off / switched off / data removed.',
     'technique': 'Lean 4 proof over extracted tables (decide) + structural induction; model/implementation differential correspondence; direct save->load->compare oracle on real runs',
     'design_ref': 'DESIGN.md section 6, C20',
@@ -36,6 +44,7 @@ ASSUMPTIONS = [
     'the model has been solved at least once (an unsolved precipitation model holds eqAspectRatio = None and cannot be loaded back)',
     'phase names of one model are distinct',
     'finite array contents; array dtype (finalTime may be saved as int64) is not modelled, values are compared as doubles',
+    'argument forwarding is observed on a recording mock thermodynamics with marker values (non-default value for every parameter; phases PREC2 / PREC3 of a 4-phase mock) and, on the real Al-Mg-Si system, on a spy around the real object; extra positional arguments are taken to follow the documented order: the getter own parameters, then the remaining parameters of the thermodynamics method',
     'the untrained getter must return the very object the thermodynamics call of the same name returned (checked by identity); an independent second thermodynamics call (removeCache=True) is compared with rtol 1e-6 only: two pycalphad evaluations of the same point agree to the minimiser tolerance (1e-12 typical, 6e-10 seen in a precipitate composition)',
 ]
 TRUSTED = ['np.savez_compressed / np.load / dict(NpzFile) semantics as modelled in KawinV.SaveLoad (compared on every run)',
